@@ -129,7 +129,8 @@ func c01Round(m map[string]any, kind string) Case {
 	if !reflect.DeepEqual(back, m) {
 		fail = append(fail, "AsMap(FromMap(m)) != m")
 	}
-	if len(d.Flatten()) != countScalars(m) {
+	// (flattened paths are only injective for path-safe member names: C02's domain)
+	if allKeysSafe(m) && len(d.Flatten()) != countScalars(m) {
 		fail = append(fail, fmt.Sprintf("|Flatten| = %d but the value has %d scalar positions", len(d.Flatten()), countScalars(m)))
 	}
 	nm := normGeneric(m)
@@ -309,8 +310,19 @@ func c01Extra(seed int64, tier string) ([]string, map[string]any) {
 	return fail, map[string]any{"fault_points_enumerated": faultPoints, "determinism_runs": detRuns, "fault_docs": ndocs}
 }
 
-func c01GenGeneric(r *rand.Rand) map[string]any {
+// member names are arbitrary strings: dots, slashes, blanks, the empty name, non-ASCII
+var c01OddKeys = []string{"a", "a.b", "b", "", "x.y.z", "example.com/owner", "a b", "a.b.c", "ключ", "straße", "a.", ".a"}
+
+func c01Opts(r *rand.Rand) genOpts {
 	o := defaultOpts()
+	if r.Intn(3) == 0 {
+		o.keys = c01OddKeys
+	}
+	return o
+}
+
+func c01GenGeneric(r *rand.Rand) map[string]any {
+	o := c01Opts(r)
 	m := genDoc(r, o)
 	// sprinkle values of other kinds
 	if r.Intn(4) == 0 {
@@ -374,10 +386,10 @@ func init() {
 			case 2:
 				return c01Dom(c01GenGeneric(r))
 			case 3:
-				return c01AsMap(genDoc(r, defaultOpts()))
+				return c01AsMap(genDoc(r, c01Opts(r)))
 			default:
 				js := r.Intn(2) == 0
-				o := defaultOpts()
+				o := c01Opts(r)
 				if js {
 					o.floats = false
 				}
@@ -386,4 +398,22 @@ func init() {
 		},
 		Extra: c01Extra,
 	})
+}
+
+func allKeysSafe(v any) bool {
+	switch x := v.(type) {
+	case map[string]any:
+		for k, c := range x {
+			if k == "" || strings.ContainsAny(k, ".[] /") || !allKeysSafe(c) {
+				return false
+			}
+		}
+	case []any:
+		for _, c := range x {
+			if !allKeysSafe(c) {
+				return false
+			}
+		}
+	}
+	return true
 }
